@@ -188,8 +188,10 @@ def main(argv=None):
             streams.append((f"snoop {lab}@{pos}", st))
             streams.append(("snoop response first", good[len(good) // 2 - 1:]))
         for lab, st in streams:
-            st = [(f, d) for f, d in st if len(d) > 0]  # the log syntax cannot express empty frames
-            text = ic.log_text(st, lambda k, d: 1)
+            st = [(f, d) for f, d in st if len(d) > 0]  # empty frames: as candump prints them (no data field), see below
+            # what candump prints for remote frames and for frames without data, at a random position
+            junk = {rng.randrange(len(st) + 1): rng.choice(ic.JUNK_LINES[5:])} if st else None
+            text = ic.log_text(st, lambda k, d: 1, junk=junk)
             got, out, err = ic.run_snoop(text, None, None)
             nsn += 1
             ck.count(("snoop", text))
